@@ -54,7 +54,11 @@ func (e *Exec) atCalls(fr *Frame, cfr *Frame, st *State, cc *ssa.CallCommon, pos
 		}
 		env := e.specEnvAt(fr, st)
 		// arg0.. = the actual arguments of this call (receiver excluded)
-		for i, a := range cc.Args {
+		cargs := cc.Args
+		if f := cc.StaticCallee(); f != nil && f.Signature.Recv() != nil && len(cargs) > 0 {
+			cargs = cargs[1:]
+		}
+		for i, a := range cargs {
 			if i >= 4 {
 				break
 			}
@@ -555,6 +559,10 @@ func (e *Exec) applyContract(fr *Frame, st *State, fc *FuncContract, args []Val,
 	if e.calledNamed[fc.Key] {
 		e.hset(st, e.calledFlag(fc.Key), "true")
 	}
+	if e.callsNamed[fc.Key] {
+		c := e.callsCounter(fc.Key)
+		e.hset(st, c, "(+ "+e.hget(st, c)+" 1)")
+	}
 	e.boxCopyOut(st, args)
 	return res
 }
@@ -566,6 +574,17 @@ func (e *Exec) succFlag(key string) string { return e.pathFlag("succ", key) }
 
 // calledFlag: "the contracted function KEY has been called on this path" (for called("KEY")).
 func (e *Exec) calledFlag(key string) string { return e.pathFlag("called", key) }
+
+// callsCounter: "number of calls of the contracted function KEY on this path" (for calls("KEY")).
+func (e *Exec) callsCounter(key string) string {
+	name := e.heapMap("GS_calls."+sanitize(key), "Int")
+	g := name + "@0"
+	if !e.sc.declared[g] {
+		e.sc.declGlobalConst(g, "Int")
+		e.sc.axiom("calls0:"+name, "(= "+g+" 0)")
+	}
+	return name
+}
 
 func (e *Exec) pathFlag(kind, key string) string {
 	name := e.heapMap("GS_"+kind+"."+sanitize(key), "Bool")
@@ -875,6 +894,9 @@ func (e *Exec) callEffects(fr *Frame, cc *ssa.CallCommon, depth int) (maps []str
 		}
 		if e.calledNamed[fc.Key] {
 			set[e.calledFlag(fc.Key)] = true
+		}
+		if e.callsNamed[fc.Key] {
+			set[e.callsCounter(fc.Key)] = true
 		}
 		for _, c := range fc.ModClauses {
 			for _, m := range e.staticModMaps(c) {
